@@ -967,6 +967,20 @@ impl<'a, 'b> Gen<'a, 'b> {
                 return s;
             }
         }
+        if self.p.empty_blocks && decl_ok && self.t.chance(14) {
+            // a free-standing block as a statement of its own: `{}` or `{ s; .. }` (a scope like any other)
+            self.scopes.push(vec![]);
+            let n = if self.t.chance(120) { 0 } else { 1 + self.t.below(2) };
+            let mut stmts = Vec::new();
+            for _ in 0..n {
+                if self.budget == 0 {
+                    break;
+                }
+                stmts.push(self.stmt(depth.saturating_sub(1), true));
+            }
+            self.scopes.pop();
+            return Stmt::Block { id: self.ids.next(), stmts };
+        }
         match roll {
             0 | 1 if decl_ok && self.p.template && self.p.signals && self.p.nested_signal_decls && self.t.chance(90) => {
                 self.signal_decl()
